@@ -60,12 +60,16 @@ def cases(tier, seed, rnd):
                         cs.append(dict(k='ro', name=nm, hist=[h1, h2]))
     for nm in dro_histories():
         cs.append(dict(k='dro', name=nm))
+    for v in LATE_RVAR:
+        cs.append(dict(k='late-rvar', name=v))
     return cs
 
 
 def run_case(case, ses):
     if case['k'] == 'ro':
         return run_ro(case, ses)
+    if case['k'] == 'late-rvar':
+        return run_late_rvar(case, ses)
     return run_dro(case, ses)
 
 
@@ -99,6 +103,67 @@ def run_ro(case, ses):
             finding(ses, 'C09:%s:optimum' % spec['name'], 'model %s: optimum after history %s is %s (%s), fresh build %s (%s)'
                     % (base['name'], case['hist'], v2, s2, v1, s1), dict(k='ro', spec=spec, sub=None), 'rsv.props.c09:replay')
     rekey(ses, n0, spec['name'])
+
+
+# ------------------------------------------------------------------ random variables declared after a set was compiled
+LATE_RVAR = ['default-set-scalar', 'default-set-vector', 'forall-set', 'default-set-constant-coefficient']
+
+
+def late_rvar_model(variant, late):
+    """The same declared model with the second random variable declared before everything (late=False) or after the
+    objective / the first constraint with its set were handed to the model (late=True).  No set mentions it: it is unrestricted."""
+    from rsome import ro
+    import rsome as rso
+    m = ro.Model()
+    x = m.dvar()
+    y = m.dvar()
+    w = m.dvar(2)
+    z1 = m.rvar()
+    n2 = 2 if variant == 'default-set-vector' else None
+    mk = (lambda: m.rvar(n2)) if n2 else (lambda: m.rvar())
+    z2 = None if late else mk()
+    S = (abs(z1) <= 1,)
+    if variant == 'forall-set':
+        m.min(-x + y + w.sum())
+        m.st((z1 * y - x + w[0] <= 4).forall(*S))
+    else:
+        m.minmax(-x + y + z1 * y + w.sum(), *S)
+    m.st(x <= 5, x >= 0, y >= 0, y <= 5, w >= -1, w <= 3)
+    if late:
+        m.do_math()
+        z2 = mk()
+    if variant == 'default-set-scalar':
+        m.st(x * z2 + y >= 1)
+    elif variant == 'default-set-vector':
+        m.st(x * z2[0] + w[0] * z2[1] + y + w[1] >= 1)
+    elif variant == 'forall-set':
+        m.st((x * z2 + y + z1 * w[1] >= 1).forall(*S))
+    else:
+        m.st(2.0 * z2 + x * z2 + y >= 1)        # only x = -2 would do: infeasible within the bounds
+    return m
+
+
+def run_late_rvar(case, ses):
+    from ..cprog import CProg
+    v = case['name']
+    res = {}
+    for late in (False, True):
+        with quiet():
+            P = CProg(late_rvar_model(v, late).do_math())
+        vs = P.z3vars('l' if late else 'e')
+        res[late] = ses.optimum(P.constraints(vs), P.obj_term(vs), label='late-rvar/%s/%s' % (v, late))
+        ses.stats.programs += 1
+    ses.stats.obligations += 1
+    ses.stats.kinds['optimum-vs-fresh-build'] = ses.stats.kinds.get('optimum-vs-fresh-build', 0) + 1
+    if 'unknown' in (res[False][0], res[True][0]):
+        ses.stats.undecided += 1
+    elif res[False] == res[True]:
+        ses.stats.discharged += 1
+        ses.stats.nontrivial.add('late-rvar:' + v)
+    else:
+        finding(ses, 'C09:late-rvar:%s' % v, 'model %s: random variable declared after the set was compiled: optimum %s (%s), '
+                'declared before: %s (%s)' % (v, res[True][1], res[True][0], res[False][1], res[False][0]),
+                dict(k='late-rvar', name=v), 'rsv.props.c09:replay')
 
 
 def rekey(ses, n0, tag):
@@ -215,6 +280,31 @@ def dro_histories():
         a.st(a.le(a.E(x[1] * z - x[0]), 2.5))
         a.st(a.ge(x, -2.0))
         a.st(a.le(x, 2.0))
+
+    @reg
+    def late_rvar_after_solve(a):
+        """A random variable is declared AFTER the model was formulated and solved once (the expectation model has kept
+        auxiliary columns of a 1-norm set the support model does not have); supports and expectation information are extended
+        to it and an expectation constraint uses it."""
+        p = a.scen(1)
+        x = a.dvar(2)
+        t = a.dvar(())
+        z1 = a.rvar(2)
+        F = a.ambiguity()
+        a.supp(F, None, a.ge(z1, -1.0), a.le(z1, 1.0))
+        a.expt(F, None, a.le(a.norm(a.Ez(z1), 1), 0.25))
+        a.minsup(a.E(t + a.sum(x * z1)), F)
+        a.st(a.ge(x, -1.0))
+        a.st(a.le(x, 1.0))
+        a.st(a.ge(t, -5.0))
+        if a.kind == 'real':
+            with quiet():
+                a.m.do_math()
+                a.m.solve(display=False)
+        z2 = a.rvar(())
+        a.supp(F, None, a.ge(z1, -1.0), a.le(z1, 1.0), a.ge(z2, -2.0), a.le(z2, 2.0))
+        a.expt(F, None, a.le(a.Ez(z2), 0.5), a.ge(a.Ez(z2), 0.25))
+        a.st(a.le(a.E(2.0 * z2 - t), 0.0))
 
     @reg
     def ambiguity_extended_after_solve(a):
